@@ -288,6 +288,58 @@ def tlc_validate(module, cfg, trace_path, shards=8, timeout=1800, tags=("MISMATC
     return out, lines, results
 
 
+def tlc_validate_seq(module, cfg, trace_path, shards=8, timeout=1800, tags=("MISMATCH",), reset_ev="Reset", env=None):
+    """Sequential (state-machine) trace validation: the trace is split at `Reset` events into shards, each
+    consumed event by event by one TLC run (workers=1).  Every shard must be consumed completely
+    (TLC search depth = lines + 1).  Returns (records by tag with global line numbers, lines, results)."""
+    with open(trace_path) as f:
+        lines = [x for x in f.read().split("\n") if x.strip()]
+    if not lines:
+        raise ToolError("no events in %s" % trace_path)
+    starts = [i for i, x in enumerate(lines) if '"ev":"%s"' % reset_ev in x]
+    if not starts or starts[0] != 0:
+        starts = [0] + starts
+    groups = [(starts[i], starts[i + 1] if i + 1 < len(starts) else len(lines)) for i in range(len(starts))]
+    shards = max(1, min(shards, len(groups)))
+    per = (len(groups) + shards - 1) // shards
+    parts = []
+    for i in range(shards):
+        gs = groups[i * per:(i + 1) * per]
+        if not gs:
+            continue
+        a, b = gs[0][0], gs[-1][1]
+        p = "%s.seq%d" % (trace_path, i)
+        with open(p, "w") as f:
+            f.write("\n".join(lines[a:b]) + "\n")
+        parts.append((p, a, b - a))
+
+    def one(pp):
+        p, off, n = pp
+        ee = {"TRACE": p}
+        if env:
+            ee.update(env)
+        r = tlc(module, cfg, env=ee, workers=1, timeout=timeout, keep_emit_tags=set(tags), heap="3g")
+        if r.violation:
+            raise ToolError("trace validator %s failed on %s:\n%s" % (module, p, r.violation[:3000]))
+        if r.depth != n + 1:
+            raise ToolError("trace validator %s consumed %d of %d events of %s\n%s" % (module, r.depth - 1, n, p, r.raw_tail[-1500:]))
+        for tag in tags:
+            for rec in r.emits.get(tag, []):
+                if isinstance(rec, dict) and "line" in rec:
+                    rec["line"] += off
+        return r
+
+    with ThreadPoolExecutor(max_workers=len(parts)) as ex:
+        results = list(ex.map(one, parts))
+    out = {t: [] for t in tags}
+    for r in results:
+        for t in tags:
+            out[t].extend(r.emits.get(t, []))
+    for p, _, _ in parts:
+        os.unlink(p)
+    return out, lines, results
+
+
 # --------------------------------------------------------------------------- known findings
 def load_known():
     if not os.path.exists(KNOWN):
